@@ -191,6 +191,80 @@ def run_components(case, ctx):
         ])
 
 
+# ------------------------------------------- lazy pool with owned interleaving
+def strategy_lazy_sched(tier):
+    return st.fixed_dictionaries({
+        "t": st.integers(1, 4),
+        "n": st.one_of(st.none(), st.integers(0, 80)),
+        "k": st.integers(1, 30),
+        "choices": st.lists(st.integers(0, 4), min_size=0, max_size=400),
+        "greedy_workers": st.booleans(),
+    })
+
+
+def run_lazy_sched(case, ctx):
+    """LazyPool.imap_unordered with the interleaving owned by vlib.sched:
+    workers may run arbitrarily far ahead of a slow consumer."""
+    from sedpack.io.itertools import lazy_pool
+    from vlib import sched
+    from vlib.core import Inconclusive
+    t, n, k = case["t"], case["n"], case["k"]
+    bound = 2 * t + 2
+    src = CountingSource(n, k + bound + SLACK)
+    choices = list(case["choices"])
+    if case["greedy_workers"]:
+        # prefer anybody but the consumer whenever possible: 1 = "first other
+        # enabled participant" in the scheduler's ordering
+        choices = [1] * 400
+    s = sched.Scheduler(choices)
+    s.register_current("c")
+    observed = []
+    eager = None
+    with sched.Installed(s):
+        try:
+            try:
+                with lazy_pool.LazyPool(t) as pool:
+                    it = iter(pool.imap_unordered(lambda x: x, src))
+                    for j in range(1, k + 1):
+                        try:
+                            next(it)
+                        except StopIteration:
+                            break
+                        observed.append((j, src.pulled))
+                    it.close()
+            except sched.SchedAbort:
+                pass
+            except sched.UnsupportedPrimitive as exc:
+                raise Inconclusive(str(exc)) from exc
+            except Eager as exc:
+                eager = exc
+            if not s._aborting():  # pylint: disable=protected-access
+                s.drain()
+        finally:
+            s.join_threads(1.0)
+    if s.step_limit_hit:
+        raise Inconclusive("step limit")
+    what = f"LazyPool({t}) n={n} take {k} (scheduler-owned interleaving)"
+    if eager is not None:
+        ctx.fail("bounded", ("eager-consumption", "lazy_pool-scheduled"),
+                 f"{what}: {eager}")
+        return
+    for j, pulled in observed:
+        if pulled > j + bound + 1:
+            ctx.fail(
+                "bounded", ("read-ahead-exceeds-bound", "lazy_pool-scheduled"),
+                f"{what}: after output #{j} the source had been consumed "
+                f"{pulled} times, allowed {j + bound + 1}; choices "
+                f"{choices[:s.ci][:60]}")
+            return
+    ctx.label("comp=lazy_pool-scheduled",
+              "infinite" if n is None else "finite")
+    if n is None or n > k + bound + 1:
+        ctx.nontrivial(["lazy-sched", t, "inf" if n is None else "finite",
+                        min(k, 10), case["greedy_workers"],
+                        s.worker_switches() >= 2])
+
+
 # ------------------------------------------------------------------ Rust pmap
 def strategy_pmap(tier):
     return st.fixed_dictionaries({
@@ -251,6 +325,7 @@ def strategy_dataset(tier):
         "iface": st.integers(0, 9),
         "shuffle": st.sampled_from([0, 0, 1, 3, 10]),
         "fp": st.integers(1, 5),
+        "fp_none": st.integers(0, 4).map(lambda x: x == 0),
         "k": st.integers(1, 12),
     })
 
@@ -292,9 +367,24 @@ def run_dataset(case, ctx):
         opts = {"shuffle": shuffle}  # repeat=True is the default
         if dsops.iface_accepts(iface, "file_parallelism"):
             opts["file_parallelism"] = fp
+        if iface == "tfdata" and case.get("fp_none"):
+            # documented as allowed: file_parallelism: int | None
+            opts["file_parallelism"] = None
+            tfds = ds.as_tfdataset("train", batch_size=0, shuffle=shuffle,
+                                   file_parallelism=None)
+            del tfds
+            fp = 1 if fmt != "tfrec" else (os.cpu_count() or 1)
         mon = openmon.OpenMonitor([root / "ds"])
         try:
-            got = dsops.read_prefix(ds, "train", iface, k, **opts)
+            if iface == "tfdata" and case.get("fp_none"):
+                it = iter(ds.as_tfdataset("train", batch_size=0,
+                                          shuffle=shuffle,
+                                          file_parallelism=None
+                                          ).as_numpy_iterator())
+                got = [next(it) for _ in range(k)]
+                del it
+            else:
+                got = dsops.read_prefix(ds, "train", iface, k, **opts)
             opens = len(mon.opened_files("." + fmt))
         finally:
             mon.close()
@@ -328,6 +418,13 @@ STAGES = [
           examples={
               "quick": 12000,
               "thorough": 120000
+          }),
+    Stage(name="lazy_sched",
+          run=run_lazy_sched,
+          strategy=strategy_lazy_sched,
+          examples={
+              "quick": 3000,
+              "thorough": 60000
           }),
     Stage(name="pmap",
           run=run_pmap,
